@@ -3,7 +3,9 @@ package main
 import (
 	"bytes"
 	"context"
+	yamldec "github.com/vimeo/dials/decoders/yaml"
 	"reflect"
+	"strconv"
 
 	"encoding/json"
 	"errors"
@@ -26,13 +28,15 @@ import (
 // ---- C17: the watched config file (DESIGN §4 C17, §2.5) ----
 
 type FileSpec struct {
-	Layout     string `json:"layout"` // plain | k8s
+	Format     string `json:"format,omitempty"` // "" (JSON) | "yaml": a format in which a prefix of a document can be a document
+	Layout     string `json:"layout"`           // plain | k8s
 	PollMS     int    `json:"poll_ms,omitempty"`
 	Reload     bool   `json:"reload,omitempty"`
 	RaceConfig bool   `json:"race_config,omitempty"` // Config runs as a task, raced by the writer
 }
 
 type fileState struct {
+	cur        *Part // the part whose rendering was written last (nil: unknown)
 	spec       *FileSpec
 	root       string // per-run directory on tmpfs
 	dir        string // directory holding the config path
@@ -123,6 +127,96 @@ func partJSON(p *Part, owner int) []byte {
 	return b
 }
 
+// partYAML renders a part as a YAML document (keys are the lower-cased field
+// names, as yaml.v3 maps untagged fields). The stamp comes last, without a
+// trailing newline: appending digits and further lines to the file keeps the
+// old bytes as a prefix and still gives a document - with another stamp.
+func partYAML(p *Part, owner int) []byte {
+	var b strings.Builder
+	q := func(s string) string { return strconv.Quote(s) }
+	if p.I != nil {
+		fmt.Fprintf(&b, "i: %d\n", *p.I)
+	}
+	if p.S != nil {
+		fmt.Fprintf(&b, "s: %s\n", q(*p.S))
+	}
+	if p.Dur != nil {
+		fmt.Fprintf(&b, "dur: %s\n", q(time.Duration(*p.Dur).String()))
+	}
+	if p.F != nil {
+		fmt.Fprintf(&b, "f: %s\n", strconv.FormatFloat(*p.F, 'f', -1, 64))
+	}
+	if p.B != nil {
+		fmt.Fprintf(&b, "b: %v\n", *p.B)
+	}
+	if p.Strs != nil {
+		l := make([]string, len(p.Strs))
+		for i, x := range p.Strs {
+			l[i] = q(x)
+		}
+		fmt.Fprintf(&b, "strs: [%s]\n", strings.Join(l, ", "))
+	}
+	if p.M != nil {
+		keys := make([]string, 0, len(p.M))
+		for k := range p.M {
+			keys = append(keys, k)
+		}
+		sort.Strings(keys)
+		l := make([]string, len(keys))
+		for i, k := range keys {
+			l[i] = fmt.Sprintf("%s: %d", q(k), p.M[k])
+		}
+		fmt.Fprintf(&b, "m: {%s}\n", strings.Join(l, ", "))
+	}
+	if p.NestS != nil || p.NestN != nil {
+		b.WriteString("nest:\n")
+		if p.NestS != nil {
+			fmt.Fprintf(&b, "  s: %s\n", q(*p.NestS))
+		}
+		if p.NestN != nil {
+			fmt.Fprintf(&b, "  n: %d\n", *p.NestN)
+		}
+	}
+	if p.PNS != nil || p.PNN != nil {
+		b.WriteString("pn:\n")
+		if p.PNS != nil {
+			fmt.Fprintf(&b, "  s: %s\n", q(*p.PNS))
+		}
+		if p.PNN != nil {
+			fmt.Fprintf(&b, "  n: %d\n", *p.PNN)
+		}
+	}
+	if p.After != nil {
+		fmt.Fprintf(&b, "after: %d\n", *p.After)
+	}
+	if p.Lo != nil {
+		fmt.Fprintf(&b, "lo: %d\n", *p.Lo)
+	}
+	if p.Hi != nil {
+		fmt.Fprintf(&b, "hi: %d\n", *p.Hi)
+	}
+	if p.Forbidden != nil {
+		fmt.Fprintf(&b, "forbidden: %v\n", *p.Forbidden)
+	}
+	fmt.Fprintf(&b, "%s: %d", strings.ToLower(stampNames[owner]), p.ID)
+	return []byte(b.String())
+}
+
+// render: the document for a part in the run's file format.
+func (fs *FileSpec) render(p *Part, owner int) []byte {
+	if fs.Format == "yaml" {
+		return partYAML(p, owner)
+	}
+	return partJSON(p, owner)
+}
+
+func (fs *FileSpec) decoder() dials.Decoder {
+	if fs.Format == "yaml" {
+		return &yamldec.Decoder{}
+	}
+	return &jsondec.Decoder{}
+}
+
 // filePart draws a part restricted to leaves a JSON document can express for CfgCore.
 func (g *gen) filePart(pInvalid int) *Part {
 	p := g.part(40, pInvalid, false)
@@ -135,6 +229,16 @@ func (g *gen) filePart(pInvalid int) *Part {
 		p.NestS = nil
 	}
 	return p
+}
+
+func malformedYAML(id uint64) []byte {
+	switch id % 3 {
+	case 0:
+		return []byte("i: [1, 2")
+	case 1:
+		return []byte(fmt.Sprintf("i: \"not-a-number-%d\"\n", id)) // ill-typed
+	}
+	return []byte("\t- ]] not yaml at all: [")
 }
 
 func malformed(id uint64) []byte {
@@ -172,6 +276,9 @@ func genFile(seed uint64, faulty bool) *Scenario {
 	}
 	fs.Reload = g.pct(20)
 	fs.RaceConfig = g.pct(20)
+	if fs.Layout == "plain" && g.pct(35) {
+		fs.Format = "yaml"
+	}
 	sc.File = fs
 	pInvalid := 0
 	if faulty {
@@ -358,6 +465,10 @@ func (g *gen) writerOp(fs *FileSpec, pInvalid int) Op {
 		}
 		return op
 	}
+	if fs.Format == "yaml" && g.pct(30) {
+		// grow the file in place: the old bytes stay as a prefix
+		return Op{K: "append", N: g.in(1, 9)}
+	}
 	switch g.r.IntN(12) {
 	case 0, 1, 2:
 		op := content()
@@ -405,8 +516,9 @@ func (r *Run) setupFile(st *srcState) {
 	f.dir = filepath.Join(f.root, "w")
 	must(os.MkdirAll(f.dir, 0755))
 	f.path = filepath.Join(f.dir, "cfg.json")
-	content := partJSON(st.spec.Init, st.idx)
+	content := fs.render(st.spec.Init, st.idx)
 	f.known[string(content)] = st.spec.Init.ID
+	f.cur = st.spec.Init
 	switch fs.Layout {
 	case "link":
 		// starts as a symlink to a sibling with another name (or, half of the
@@ -435,7 +547,7 @@ func (r *Run) setupFile(st *srcState) {
 		f.reload = make(chan os.Signal, 4)
 		opts = append(opts, file.WithSignalChannel(f.reload))
 	}
-	src, err := file.NewWatchingSource(f.path, &jsondec.Decoder{}, opts...)
+	src, err := file.NewWatchingSource(f.path, fs.decoder(), opts...)
 	must(err)
 	f.src = src
 	st.src = src
@@ -463,10 +575,14 @@ func (r *Run) cleanupFile() {
 
 func (r *Run) contentFor(op *Op, st *srcState) []byte {
 	if op.Str == "malformed" {
+		if r.file.spec.Format == "yaml" {
+			return malformedYAML(op.Part.ID)
+		}
 		return malformed(op.Part.ID)
 	}
-	b := partJSON(op.Part, st.idx)
+	b := r.file.spec.render(op.Part, st.idx)
 	r.file.known[string(b)] = op.Part.ID
+	r.file.cur = op.Part
 	return b
 }
 
@@ -591,6 +707,44 @@ func (r *Run) writer(c *ClientSpec) {
 			changed()
 			simrt.Yield("w.burst")
 			r.probe("burst")
+		case "append":
+			// only a complete, well-formed document ending in its stamp can grow this way
+			cur := f.cur
+			if cur == nil || cur.ID == 0 || cur.ID > 1<<40 {
+				continue
+			}
+			if b, err := os.ReadFile(f.path); err != nil || string(b) != string(f.spec.render(cur, st.idx)) {
+				continue
+			}
+			grown := *cur
+			grown.ID = cur.ID*1000 + uint64(op.N)
+			tail := fmt.Sprintf("%03d\n", op.N)
+			switch {
+			case grown.After == nil:
+				grown.After = ip(int(grown.ID % 1000003))
+				// (after precedes lo/hi/forbidden/stamp in a fresh rendering: as a
+				// YAML mapping the order of keys is immaterial)
+				tail += fmt.Sprintf("after: %d\n", *grown.After)
+			case grown.I == nil:
+				grown.I = ip(int(grown.ID % 1000003))
+				tail += fmt.Sprintf("i: %d\n", *grown.I)
+			default:
+				continue
+			}
+			r.parts[grown.ID] = &grown
+			r.owner[grown.ID] = st.idx
+			fh, err := os.OpenFile(f.path, os.O_WRONLY|os.O_APPEND, 0644)
+			if err != nil {
+				continue
+			}
+			fh.WriteString(tail)
+			fh.Close()
+			changed()
+			full, _ := os.ReadFile(f.path)
+			f.known[string(full)] = grown.ID
+			f.cur = nil // (its rendering differs from the bytes in the file: no further growth)
+			simrt.Yield("w.appended")
+			r.probe("file-grown-in-place")
 		case "link-swap":
 			content := r.contentFor(op, st)
 			f.tsN++
@@ -846,10 +1000,13 @@ func (r *Run) releaseOracle() {
 	}
 }
 
-type decodeSource struct{ data []byte }
+type decodeSource struct {
+	data []byte
+	dec  dials.Decoder
+}
 
 func (d decodeSource) Value(_ context.Context, t *dials.Type) (reflect.Value, error) {
-	return (&jsondec.Decoder{}).Decode(bytes.NewReader(d.data), t)
+	return d.dec.Decode(bytes.NewReader(d.data), t)
 }
 
 // tornReadExplains: a read of the code under test that raced a non-atomic
@@ -870,7 +1027,7 @@ func (r *Run) tornReadExplains(in Install) bool {
 		var srcs []dials.Source
 		for i := range r.sc.Sources {
 			if i == r.file.idx {
-				srcs = append(srcs, decodeSource{rr.Data})
+				srcs = append(srcs, decodeSource{rr.Data, r.file.spec.decoder()})
 			} else {
 				srcs = append(srcs, partSource{p: r.parts[in.Stamps[i]], owner: i})
 			}
